@@ -400,6 +400,11 @@ def e10_memo_keyed_by_arguments(ctx, modules=None) -> None:
                 memo = [g for g in C.flatten_guards(C.guards(f, st)) if g[1] and (_is_none_test(g[0], norm(t)) or _is_none_test_of_alias(f, g[0], t))]
                 if not memo:
                     continue
+                # a one-time link whose other branch *refuses* (raises) is not a memo: nobody is ever answered from the first value
+                ifs = [i for i in walk_local(f) if isinstance(i, ast.If) and any(st is x for b_ in i.body for x in ast.walk(b_)) and i.orelse
+                       and all(isinstance(o, ast.Raise) for o in i.orelse)]
+                if ifs:
+                    continue
                 n += 1
                 ctx.analysed(fi)
                 d = sorted(deps(st.value) - set(ORACLE_PARAMS))
